@@ -570,25 +570,40 @@ class SymReal:
             )
         return SymReal(l, _or(self.u, t <= 0))
 
+    def _trig_axioms(self, t):
+        c, s = _COS(t), _SIN(t)
+        CTX.axiom(("trig", t.get_id()), z3.And(c * c + s * s == 1, c >= -1, c <= 1, s >= -1, s <= 1))
+        # reflection 2*pi - a (the only angle arithmetic in the code under verification)
+        if z3.is_app(t) and t.decl().kind() == z3.Z3_OP_SUB and len(t.children()) == 2:
+            a0, a1 = t.children()
+            if a0.eq(2 * PI) or a0.eq(z3.RealVal(2) * PI):
+                CTX.axiom(("trig-reflect", t.get_id()), z3.And(c == _COS(a1), s == -_SIN(a1)))
+        # the conditional angles produced by np.where: cos/sin distribute over If
+        if z3.is_app(t) and t.decl().kind() == z3.Z3_OP_ITE:
+            cnd, x, y = t.children()
+            for b in (x, y):
+                if z3.is_rational_value(b):
+                    if b.numerator_as_long() == 0:
+                        CTX.axiom(("trig0",), z3.And(_COS(b) == 1, _SIN(b) == 0))
+                else:
+                    self._trig_axioms(b)
+            CTX.axiom(("trig-ite", t.get_id()), z3.And(c == z3.If(cnd, _COS(x), _COS(y)), s == z3.If(cnd, _SIN(x), _SIN(y))))
+
     def cos(self):
         if self.c == 0:
             return SymReal(Fraction(1), self.u)
         t = self.z
-        c = _COS(t)
         if CTX.active:
-            s = _SIN(t)
-            CTX.axiom(("trig", t.get_id()), z3.And(c * c + s * s == 1, c >= -1, c <= 1, s >= -1, s <= 1))
-        return SymReal(c, self.u)
+            self._trig_axioms(t)
+        return SymReal(_COS(t), self.u)
 
     def sin(self):
         if self.c == 0:
             return SymReal(Fraction(0), self.u)
         t = self.z
-        s = _SIN(t)
         if CTX.active:
-            c = _COS(t)
-            CTX.axiom(("trig", t.get_id()), z3.And(c * c + s * s == 1, c >= -1, c <= 1, s >= -1, s <= 1))
-        return SymReal(s, self.u)
+            self._trig_axioms(t)
+        return SymReal(_SIN(t), self.u)
 
     def arccos(self):
         t = self.z
